@@ -288,7 +288,7 @@ class Gf2:
                 m, k = s.reduce(m0, c0)
                 if m == 0: return bool(k)
                 eq = [(m, k ^ 1)]
-                return ('bits', eq, s.bits_to_z3(eq) if (m, k) != (m0, c0) or not z3.is_eq(c) else c)
+                return ('bits', eq, s.bits_to_z3(eq))
         if z3.is_eq(c):
             a, b = c.children()
             if z3.is_bv(a):
@@ -296,7 +296,10 @@ class Gf2:
                 if r is True or r is False: return r
                 if r is not None:
                     bits, changed = r
-                    return ('bits', bits, s.bits_to_z3(bits) if changed else c)
+                    # keep the original atom only when it is already small (symbol/numeral on both sides);
+                    # deeply nested originals (CRC circuits) are replaced by the canonical xor form
+                    simple = all(z3.is_bv_value(t) or (z3.is_const(t) and t.decl().kind() == z3.Z3_OP_UNINTERPRETED) for t in (a, b))
+                    return ('bits', bits, c if (simple and not changed) else s.bits_to_z3(bits))
             return ('z3', c)
         if z3.is_not(c):
             r = s._rw(c.arg(0))
